@@ -57,9 +57,11 @@ partial def parseLoad (j : Json) : Option Load := do
   let op ← getArr? j "oprocs"
   let op ← op.toList.mapM parseHook
   let mproc ← parseHook (← getObj? j "mproc")
-  -- a model of an immutable type cannot import (ImportURI needs attributes on the model)
+  -- immutable model <=> the top rule application is a match rule; such a model cannot
+  -- import (ImportURI needs attributes on the model)
+  if immut != root.isConv then none
   if immut && !imps.isEmpty then none
-  pure (.mk pid classes syntaxOk immut root pre imps res unresolved op mproc)
+  pure (.mk pid classes syntaxOk root pre imps res unresolved op mproc)
 
 def cleanState (_n : Nat) : Sh Nat :=
   { core := fun c => { cnt := 0, cur := .real c, saved := none }, attrs := [], next := 0, log := [], own := [] }
